@@ -15,7 +15,7 @@ Definition phase (a : ex) : sgate := (MLit [[Exp (Mul (Imag 1) a)]], []).
 (* 1. as coded (marker appended to qc_temp.gates), X in the default basis becomes RX(pi) alone: the table of the result
       differs from the table of X, and equals it once the lost GLOBALPHASE(pi/2) is put back *)
 Lemma sem_refuted_unfixed : exists b c out, Forall wf_gate c /\
-  resolve_gen false str_basis_listified b c = Ok out /\
+  resolve_gen false cur_flags basis_2q_order b c = Ok out /\
   scirc_eqb 1 (map to_sgate out) (map to_sgate c) = false /\
   scirc_eqb 1 (phase (Div Pi (Num 2)) :: map to_sgate out) (map to_sgate c) = true.
 Proof.
@@ -28,30 +28,55 @@ Qed.
 (* 2. as coded (`gate.name in basis` with basis a str), a T gate is passed through for basis="CNOT" although it has no
       rule and is not the requested gate *)
 Lemma refuses_refuted_unfixed : exists c, find_rule "T" = None /\ String.eqb "T" "CNOT" = false /\
-  resolve_gen true false (BStr "CNOT") c = Ok c /\ In (gT 0 0) c.
+  resolve_gen true (PF false rot_normalised) basis_2q_order (BStr "CNOT") c = Ok c /\ In (gT 0 0) c.
 Proof. exists [gT 0 0]. repeat split; try (vm_compute; reflexivity). left. reflexivity. Qed.
 
-(* 3. guard of resolve_in_basis, first excluded class: IDLE in the list is counted by len(basis_1q) == 2, so the third
-      rotation is not eliminated *)
-Lemma in_basis_refuted_idle : exists b c out cf keep, Forall wf_gate c /\ parse_basis b = Ok (cf, keep) /\
-  valid_cfg cf = false /\ resolve b c = Ok out /\ existsb (fun g => negb (in_basis cf g)) out = true.
+(* 3. as coded before fixes/C03-basis-rotations-only (basis_1q not reduced to its rotations): an IDLE entry is counted by
+      len(basis_1q) == 2, so with [CNOT; RX; RY; IDLE] the third rotation is not eliminated - the request is accepted, names a
+      two-qubit gate, and the result contains RZ *)
+Definition old_flags : pflags := PF str_basis_listified false.
+Lemma in_basis_refuted_idle_unfixed : exists b c out cf keep, Forall wf_gate c /\ parse_basis_gen old_flags b = Ok (cf, keep) /\
+  c2q cf <> [] /\ resolve_gen pauli_marker_to_temp old_flags basis_2q_order b c = Ok out /\
+  existsb (fun g => negb (in_basis cf g)) out = true.
 Proof.
   exists (BList ["CNOT"; "RX"; "RY"; "IDLE"]), [gRZ 0 0], [gRZ 0 0]. eexists. eexists.
-  split; [|split; [reflexivity|split; [vm_compute; reflexivity|split; vm_compute; reflexivity]]].
+  split; [|split; [reflexivity|split; [vm_compute; discriminate|split; vm_compute; reflexivity]]].
   constructor; [|constructor]. exists 0%nat, 1%nat, 1%nat. simpl.
   split; [tauto|]. repeat split; try reflexivity. constructor; [simpl; tauto|constructor].
 Qed.
 
-(* 4. second excluded class: with both CSIGN and ISWAP requested a SWAP is kept for the ISWAP pass, but the CSIGN pass runs *)
-Lemma in_basis_refuted_csign_iswap : exists b c out cf keep, Forall wf_gate c /\ parse_basis b = Ok (cf, keep) /\
-  valid_cfg cf = false /\ resolve b c = Ok out /\ existsb (fun g => negb (in_basis cf g)) out = true.
+(* 4. as coded before fixes/C03-iswap-pass-first (pass precedence CSIGN, ISWAP, ...): with both CSIGN and ISWAP requested a
+      SWAP is kept for the ISWAP pass, but the CSIGN pass runs and leaves it in the result *)
+Definition old_order : list string := ["CSIGN"; "ISWAP"; "SQRTSWAP"; "SQRTISWAP"].
+Lemma in_basis_refuted_csign_iswap_unfixed : exists b c out cf keep, Forall wf_gate c /\ parse_basis b = Ok (cf, keep) /\
+  c2q cf <> [] /\ resolve_gen pauli_marker_to_temp cur_flags old_order b c = Ok out /\
+  existsb (fun g => negb (in_basis cf g)) out = true.
 Proof.
   exists (BList ["CSIGN"; "ISWAP"; "RX"; "RY"; "RZ"]), [gSWAP 0 1 0], [gSWAP 0 1 0]. eexists. eexists.
-  split; [|split; [reflexivity|split; [vm_compute; reflexivity|split; vm_compute; reflexivity]]].
+  split; [|split; [reflexivity|split; [vm_compute; discriminate|split; vm_compute; reflexivity]]].
   constructor; [|constructor]. exists 0%nat, 2%nat, 0%nat. simpl.
   split; [tauto|]. repeat split; try reflexivity.
   constructor; [simpl; intros [H|[]]; discriminate|constructor; [simpl; tauto|constructor]].
 Qed.
+
+(* 5. the remaining guard of resolve_in_basis is necessary: a list basis naming no two-qubit gate is accepted, and a CNOT of
+      the circuit stays in the result *)
+Lemma in_basis_refuted_no_2q : exists b c out cf keep, Forall wf_gate c /\ parse_basis b = Ok (cf, keep) /\
+  c2q cf = [] /\ resolve b c = Ok out /\ existsb (fun g => negb (in_basis cf g)) out = true.
+Proof.
+  exists (BList ["RX"; "RY"]), [MG "CNOT" [1%nat] [0%nat] [] 0%nat], [MG "CNOT" [1%nat] [0%nat] [] 0%nat]. eexists. eexists.
+  split; [|split; [reflexivity|split; [vm_compute; reflexivity|split; vm_compute; reflexivity]]].
+  constructor; [|constructor]. exists 1%nat, 1%nat, 0%nat. simpl.
+  split; [tauto|]. repeat split; try reflexivity.
+  constructor; [simpl; intros [H|[]]; discriminate|constructor; [simpl; tauto|constructor]].
+Qed.
+
+(* the repaired code on the two formerly failing requests: accepted, and the result is in the basis *)
+Lemma repaired_requests : forallb (fun bc => match parse_basis (fst bc), resolve (fst bc) (snd bc) with
+                                             | Ok ck, Ok out => forallb (in_basis (fst ck)) out | _, _ => false end)
+  [(BList ["CNOT"; "RX"; "RY"; "IDLE"], [gRZ 0 0]); (BList ["CNOT"; "IDLE"], [gRZ 0 0; gX 1 1]);
+   (BList ["CSIGN"; "ISWAP"; "RX"; "RY"; "RZ"], [gSWAP 0 1 0; MG "CNOT" [1%nat] [0%nat] [] 1%nat])] = true.
+Proof. vm_compute. reflexivity. Qed.
 
 (* ---- non-vacuity ---------------------------------------------------------------------------------------------------- *)
 Definition ex_circ : list mgate :=
